@@ -471,6 +471,9 @@ func (x *Exec) valEq(a, b Val) BoolV {
 		}
 	case OpaqueV:
 		v, ok := b.(OpaqueV)
+		if ok && u.F != nil && v.F != nil {
+			return cbool(*u.F == *v.F)
+		}
 		if ok && u.Key != "" && u.Key == v.Key {
 			return cbool(true)
 		}
